@@ -199,6 +199,10 @@ def run(tier, seed, replay):
                 if mode == "check_inline_files" and bits != "none":
                     continue
                 cases.append({"scenario": si, "mode": mode, "bits": bits, "input": "path"})
+                # make_backup must not turn a non-writing mode into a writing one
+                if mode in ("stdout", "check", "json", "checkstyle") and bits == "none":
+                    for bf in (["--backup"], ["--config", "make_backup=true"]):
+                        cases.append({"scenario": si, "mode": mode, "bits": bits, "input": "path", "backup_flag": bf})
         if len(sc["files"]) == 1:
             for mode in ("default", "stdout", "check", "json", "checkstyle", "files"):
                 for bits in BITS:
@@ -218,7 +222,7 @@ def run(tier, seed, replay):
         write_tree(d, sc["files"])
         before = snap(d)
         if c["input"] == "path":
-            args = MODES[c["mode"]] + BITS[c["bits"]] + cfg_args(sc) + sc["roots"]
+            args = MODES[c["mode"]] + c.get("backup_flag", []) + BITS[c["bits"]] + cfg_args(sc) + sc["roots"]
             rc, o, e = rustfmt(args, d, home)
         else:
             margs = [] if c["mode"] == "default" else (["--check"] if c["mode"] == "check" else ["--emit", c["mode"]])
@@ -371,6 +375,7 @@ def run(tier, seed, replay):
         l, q = c["bits"] == "l", c["bits"] == "q"
         if c["input"] == "path":
             check, emit, inline, backup = MODEL_ARGS[c["mode"]]
+            backup = backup or bool(c.get("backup_flag"))
             mode_e = "(run_apply_to_mode 0 %s %s %s)" % (coqterm.render(check), opt(emit), opt(inline))
             emitter_e = "(run_create_emitter %s %s)" % (mode_e, coqterm.render(backup))
             # observed emitter kind (only when the run shows it)
@@ -493,7 +498,7 @@ def run(tier, seed, replay):
         "evaluations": len(cases) + hist + 4 * len(FLAG_INPUTS),
         "distinct_nontrivial": len(nontrivial),
         "exhaustive": True,
-        "rule": "%d scenarios (formatted, unformatted, CR LF with explicit newline_style, newline style only in both directions, CR LF under Auto, BOM, module tree of 4 files, two roots) x {files, --backup, --emit stdout, --check, --emit json, --emit checkstyle, --check --config emit_mode=files} x {-l, -q, neither} as paths, single-file scenarios also on standard input x 6 modes; 3 histories per scenario; %d flag-setting inputs x {path, stdin} x {plain, --check}; real rustfmt processes, sha256 + st_mtime_ns of every file before/after; non-trivial = some file's formatted text differs from its bytes" % (len(SCENARIOS), len(FLAG_INPUTS)),
+        "rule": "%d scenarios (formatted, unformatted, CR LF with explicit newline_style, newline style only in both directions, CR LF under Auto, BOM, module tree of 4 files, two roots) x {files, --backup, --emit stdout, --check, --emit json, --emit checkstyle, --check --config emit_mode=files} x {-l, -q, neither} as paths, the four non-writing modes also with --backup / --config make_backup=true, single-file scenarios also on standard input x 6 modes; 3 histories per scenario; %d flag-setting inputs x {path, stdin} x {plain, --check}; real rustfmt processes, sha256 + st_mtime_ns of every file before/after; non-trivial = some file's formatted text differs from its bytes" % (len(SCENARIOS), len(FLAG_INPUTS)),
         "samples": cases[:2] + cases[len(cases) // 2:len(cases) // 2 + 2] + cases[-1:],
         "correspondence_disagreements": len(disagreements),
         "traces_validated_against_impl": validated,
